@@ -165,17 +165,9 @@ def gen_xpath(rng, u, root_t, all_chains):
 
 
 def gen_tree(rng, u, max_nodes, max_depth, origins):
-    cn = [c.name for c in u.classes]
-    best = None
-    for _ in range(8):
-        t = TreeGen(rng, u, max_nodes=max_nodes, max_depth=max_depth, share=0, origins=origins).node(rng.choice(cn))
-        if best is None or tree_size(t) > tree_size(best):
-            best = t
-        if tree_size(best) >= 5:
-            break
-    if rng.random() < 0.4:
-        best = add_twins(rng, u, best, Fresh(1000), 0.5)
-    return best
+    from .c06 import gen_tree as g
+
+    return g(rng, u, max_nodes, max_depth, rng.random() < 0.4, origins, cap=max_nodes + 16)
 
 
 def gen_cases(rng, tier):
@@ -190,6 +182,8 @@ def gen_cases(rng, tier):
         for _k in range(per_u):
             root = gen_tree(rng, u, max_nodes=rng.choice([8, 14, 22, 30]), max_depth=rng.choice([2, 3, 4, 5]),
                             origins=gen_origin if rng.random() < 0.3 else None)
+            if tree_size(root) > 60:
+                continue
             chs = chains(root)
             xps = [gen_xpath(rng, u, root, chs) for _ in range(n_xp)]
             seed = rng.randrange(1 << 30)
